@@ -755,6 +755,26 @@ fn absurd_cases() -> Vec<AbsurdCase> {
             v.push(AbsurdCase { content: format!("#SHAPE=<{}>\n{}\n", header.join("/"), vec!["1"; n].join(" ")).into_bytes(), name: "abs.sfs".into() });
         }
     }
+    // small valid spectra of every shape over a few lengths: shapes whose number of entries or of
+    // axes coincides with what a statistic expects (9 entries in two axes is 3/3, but also 9/1 and
+    // 1/9; 27 entries, 81 entries, a third axis of length 1) while the shape itself does not
+    {
+        let mut shapes: Vec<Vec<usize>> = Vec::new();
+        for axes in 1..=3usize {
+            for idx in crate::gen::shapes::odometer(&vec![4; axes]) {
+                shapes.push(idx.iter().map(|i| [1usize, 2, 3, 9][*i]).collect());
+            }
+        }
+        for idx in crate::gen::shapes::odometer(&[2, 2, 2, 2]) {
+            shapes.push(idx.iter().map(|i| [1usize, 3][*i]).collect());
+        }
+        for shape in shapes {
+            let n: usize = shape.iter().product();
+            let header: Vec<String> = shape.iter().map(|l| l.to_string()).collect();
+            let body: Vec<String> = (0..n).map(|i| ((i * 7 + 3) % 11).to_string()).collect();
+            v.push(AbsurdCase { content: format!("#SHAPE=<{}>\n{}\n", header.join("/"), body.join(" ")).into_bytes(), name: "abs.sfs".into() });
+        }
+    }
     // very many axes of length 1: one value, but a header that outgrows what NPY 1.0 can declare
     // (65 535 bytes) when converted
     for axes in [5_000usize, 21_800, 22_000, 40_000] {
@@ -1257,7 +1277,7 @@ pub fn check(ctx: &Ctx) -> Check {
         }),
         Box::new(EnumPart {
             name: "absurd-shapes",
-            rule: "text headers declaring 0-length axes, products beyond 2^64, 40 axes and 5 000 .. 40 000 axes of length 1, malformed headers (every order of the header's pieces `=`, `<`, `3`, `>`, doubled and dropped pieces); shapes sweeping every residue of the npy header length modulo 64; every tuple of <=3 axis lengths over {0,1,2,3,2^32,2^63,2^64-1} in text (399 x 3 bodies) and over {0,1,2,2^32,2^64-1} in npy (155 x 3 data lengths); npy dicts with 0 / huge / empty / duplicate shapes, header lengths 0 .. 2^32-1, unknown versions; each through 16 view/fold/stat commands (every statistic family, so that the diagnostics for a wrong dimensionality are built too)",
+            rule: "valid small spectra of every shape with <=3 axes over lengths {1,2,3,9} and 4 axes over {1,3} (entry counts that coincide with what a statistic expects -- 9, 27, 81 -- in shapes that do not: 9/1, 1/9, 3/3/1, ...) through all sixteen commands; text headers declaring 0-length axes, products beyond 2^64, 40 axes and 5 000 .. 40 000 axes of length 1, malformed headers (every order of the header's pieces `=`, `<`, `3`, `>`, doubled and dropped pieces); shapes sweeping every residue of the npy header length modulo 64; every tuple of <=3 axis lengths over {0,1,2,3,2^32,2^63,2^64-1} in text (399 x 3 bodies) and over {0,1,2,2^32,2^64-1} in npy (155 x 3 data lengths); npy dicts with 0 / huge / empty / duplicate shapes, header lengths 0 .. 2^32-1, unknown versions; each through 16 view/fold/stat commands (every statistic family, so that the diagnostics for a wrong dimensionality are built too)",
             exhaustive: true,
             cases: Box::new(|_| absurd_cases()),
             eval: Box::new(eval_absurd),
